@@ -280,3 +280,17 @@ pub fn spawn_shell_task_handle(
     tasks.spawn_task(handle.clone(), payload);
     VerifTask { handle }
 }
+
+/// One session's run (what `SessionEngine::spawn_session` spawns), awaited by the caller: lets a step
+/// scheduler interleave several runs with store writers at the `sess.*` / `log.*` / `cont.*` points
+/// (property C01).
+pub async fn run_session_inline(
+    engine: &crate::SessionEngine,
+    handle: crate::SessionHandle,
+    input: String,
+    continuity: Option<crate::ContinuityRunLink>,
+) {
+    engine
+        .verif_run_session_inline(handle, input, continuity)
+        .await;
+}
